@@ -280,6 +280,15 @@ class Interp:
         self.axiom(z3.Implies(t >= 0, z3.And(s >= 0, s * s == t)), ('sqrt', t.get_id()))
         return s
 
+    def m_complex(self, name, z):
+        """complex sqrt/log: exact in float mode (cmath, principal branch), uninterpreted pair of functions in sym mode"""
+        if self.mode == 'float':
+            import cmath
+            w = getattr(cmath, name)(complex(z.re, z.im))
+            return Cx(w.real, w.imag)
+        self.fire('complex-' + name + '->uninterpreted')
+        return Cx(self.uf('c%s_re' % name, z.re, z.im), self.uf('c%s_im' % name, z.re, z.im))
+
     def m_abs(self, x):
         if isinstance(x, Mat):
             return x.map(self.m_abs, cplx=False)
@@ -1978,11 +1987,13 @@ class Interp:
             return NotImplemented
         if s in ('std::sqrt', 'sqrt'):
             a = A()
+            if isinstance(a[0], Cx):
+                return self.m_complex('sqrt', a[0])
             return self.m_sqrt(a[0])
         if s in ('std::log', 'log'):
             a = A()
             if isinstance(a[0], Cx):
-                raise Unsupported('complex log')
+                return self.m_complex('log', a[0])
             if self.mode == 'float':
                 x = float(a[0])
                 return math.log(x) if x > 0 else (-math.inf if x == 0 else math.nan)
